@@ -159,11 +159,20 @@ def build(tier, repo):
     conds = [cx.unparse(sim.cond_of(st)) for st in sim.body.get("c", []) if st.get("k") == "IfStmt" and sim.cond_of(st) is not None
              and len(st.get("c", [])) > 1 and cm.is_error_exit(st["c"][1])]
     joined = " ".join(conds)
-    if re.search(r"\(m \* n\) != MAT_LGT\(self\)", joined) and re.search(r"m < 0", joined) and re.search(r"n < 0", joined):
-        r2.ok("matrix_set_size:guards", "src/C/dense.c:matrix_set_size", "m,n >= 0 and m*n == length")
+    # the names stored into nrows / ncols are read off the stores themselves
+    node = c.funcs["matrix_set_size"]
+    body_txt = cx.strip_pp(c.text(node["b"], node["e"])) if hasattr(cx, "strip_pp") else c.text(node["b"], node["e"])
+    mr = re.search(r"(?:MAT_NROWS\(self\)|self->nrows)\s*=\s*(\w+)\s*;", body_txt)
+    mc = re.search(r"(?:MAT_NCOLS\(self\)|self->ncols)\s*=\s*(\w+)\s*;", body_txt)
+    if not mr or not mc:
+        raise AnalysisError("matrix_set_size: stores to nrows/ncols not found")
+    vr, vc = re.escape(mr.group(1)), re.escape(mc.group(1))
+    prod = r"\((%s \* %s|%s \* %s)\) != (MAT_LGT\(self\)|len\(self\)|\(self->nrows \* self->ncols\))" % (vr, vc, vc, vr)
+    if re.search(prod, joined) and re.search(r"\b%s < 0" % vr, joined) and re.search(r"\b%s < 0" % vc, joined):
+        r2.ok("matrix_set_size:guards", "src/C/dense.c:matrix_set_size", "%s, %s >= 0 and %s*%s == length" % (mr.group(1), mc.group(1), mr.group(1), mc.group(1)))
     else:
         r2.violation("matrix_set_size:guards", "src/C/dense.c:matrix_set_size", "size can be reassigned without preserving the element count",
-                     "m < 0 || n < 0 rejected; m*n != MAT_LGT(self) rejected", conds)
+                     "%s < 0 || %s < 0 rejected; %s*%s != MAT_LGT(self) rejected" % (mr.group(1), mc.group(1), mr.group(1), mc.group(1)), conds)
     r2.require(6)
 
     r4 = chk.rule("C15-R4", "negative-index wrap uses the dimension the index was range-checked against; indices not narrowed before the check",
